@@ -31,10 +31,11 @@ TEXT = {
 }
 NOTE = "Trusted base: NumPy/SciPy/LAPACK reference computations, Hypothesis generation/shrinking, the tolerance model of DESIGN.md section 2.2. Assumes d >= 2 and finite inputs outside the underflow/overflow regime unless the property says otherwise."
 
+READY = [l.strip() for l in open(os.path.join(V, "tools", "READY.txt")) if l.strip() and not l.startswith("#")]
 checks, na = [], []
 for pid in sorted(T):
     cat, tech, ref = T[pid]
-    if glob.glob(os.path.join(V, "props", pid.lower() + "_*.py")):
+    if pid in READY and glob.glob(os.path.join(V, "props", pid.lower() + "_*.py")):
         checks.append({
             "property_id": pid,
             "quick_cmd": f"./check {pid} quick",
